@@ -4,7 +4,7 @@ CFG = {'level': 'fault_enumeration',
  'design_ref': '5.10 C10',
  'technique': 'runtime monitoring with fault injection: honest run records the tiles actually consumed, then every consumed tile x mutator is '
               'replayed; oracle = true hashes / true tile bytes of an independent log; SaveTiles argument monitor',
- 'level_text': 'For every tree size (1..40 and around powers of two to 257; thorough to 300 and 4097), tile heights 1,2,3,4,8 (thorough 1..10) and '
+ 'level_text': 'For every tree size (1..40 and around powers of two to 257; thorough to 520 and 4097), tile heights 1,2,3,4,8 (thorough 1..10) and '
                'index sets (every leaf, every stored index, random sets, the sets TreeHash/ProveRecord/ProveTree ask for), each tile the honest read '
                'consumed is corrupted by each of 12 mutators and per 32-byte slot, plus tile pairs, wrong tree hash and self-consistent forged '
                'chains through k tile levels; the read must fail or return only true hashes and only true tiles may reach SaveTiles.',
